@@ -10,7 +10,9 @@ import (
 
 	abci "github.com/cometbft/cometbft/abci/types"
 	sdk "github.com/cosmos/cosmos-sdk/types"
+	banktypes "github.com/cosmos/cosmos-sdk/x/bank/types"
 	gogoproto "github.com/cosmos/gogoproto/proto"
+	ethcommon "github.com/ethereum/go-ethereum/common"
 	ctypes "github.com/palomachain/paloma/v2/x/consensus/types"
 	evmtypes "github.com/palomachain/paloma/v2/x/evm/types"
 	palomatypes "github.com/palomachain/paloma/v2/x/paloma/types"
@@ -63,6 +65,8 @@ func (s *Script) Setup() {
 	must(w.StdChain(ctx, Ref))
 	// differentiate fees a little so that scores are not all tied, but keep two tied
 	must(w.SetFee(ctx, w.Vals[3], Ref, "1.5"))
+	must(w.App.EvmKeeper.SetSmartContractDeployer(ctx, Ref, "0x00000000000000000000000000000000000000dd"))
+	must(w.App.EvmKeeper.SetFeeManagerAddress(ctx, Ref, "0x00000000000000000000000000000000000000fe"))
 	d, err := w.BridgeToken(ctx, w.User("adm"), "t1", Ref, Erc20, 100000, w.User("U1"), w.User("U2"))
 	must(err)
 	s.denom = d
@@ -113,6 +117,9 @@ func (s *Script) TxsFor(i int, rctx sdk.Context) []Tx {
 		for _, id := range []string{"job1", "job2"} {
 			add(u1, &schedtypes.MsgCreateJob{Job: &schedtypes.Job{ID: id, Routing: schedtypes.Routing{ChainType: "evm", ChainReferenceID: Ref}, Definition: def, Payload: pay, IsPayloadModifiable: id == "job2"}, Metadata: world.Meta(u1)})
 		}
+	case 61, 62, 63, 64:
+		// one execution per block at four consecutive block times: every residue of the relayer pick
+		add(u1, &schedtypes.MsgExecuteJob{JobID: "job1", Metadata: world.Meta(u1)})
 	case 2, 60:
 		// three executions in one block: relayer selection with score ties
 		add(u1, &schedtypes.MsgExecuteJob{JobID: "job1", Metadata: world.Meta(u1)})
@@ -144,6 +151,30 @@ func (s *Script) TxsFor(i int, rctx sdk.Context) []Tx {
 	case 6:
 		add(w.Vals[1].Actor, &treasurytypes.MsgUpsertRelayerFee{Metadata: world.Meta(w.Vals[1].Actor), FeeSetting: &treasurytypes.RelayerFeeSetting{ValAddress: w.Vals[1].ValAddr.String(), Fees: []treasurytypes.RelayerFeeSetting_FeeSetting{{Multiplicator: sdkmath.LegacyMustNewDecFromStr("1.0"), ChainReferenceId: Ref}}}})
 		add(u2, &tftypes.MsgCreateDenom{Subdenom: "zz", Metadata: world.Meta(u2)})
+	case 7:
+		v := w.Vals[2]
+		add(v.Actor, &vtypes.MsgAddExternalChainInfoForValidator{Metadata: world.Meta(v.Actor), ChainInfos: []*vtypes.ExternalChainInfo{{
+			ChainType: "evm", ChainReferenceID: Ref, Address: v.EthAddr(), Pubkey: ethAddrBytes(v), Traits: []string{vtypes.PIGEON_TRAIT_MEV}}}})
+		zz := "factory/" + u2.Addr.String() + "/zz"
+		add(u2, &tftypes.MsgMint{Amount: sdk.NewInt64Coin(zz, 500), Metadata: world.Meta(u2)})
+		add(u2, &tftypes.MsgBurn{Amount: sdk.NewInt64Coin(zz, 5), Metadata: world.Meta(u2)})
+		add(u2, &tftypes.MsgSetDenomMetadata{DenomMetadata: banktypes.Metadata{Base: zz, Display: zz, Name: "zz", Symbol: "ZZ", DenomUnits: []*banktypes.DenomUnit{{Denom: zz}}}, Metadata: world.Meta(u2)})
+		add(u2, &skywaytypes.MsgSetERC20ToTokenDenom{Denom: zz, ChainReferenceId: Ref, Erc20: "0x2222222222222222222222222222222222222222", Metadata: world.Meta(u2)})
+		add(u1, &evmtypes.MsgUploadUserSmartContractRequest{Metadata: world.Meta(u1), Title: "c1", AbiJson: "[]", Bytecode: "0x6080", ConstructorInput: "0x"})
+		add(u1, &palomatypes.MsgAddLightNodeClientLicense{Metadata: world.Meta(u1), ClientAddress: world.NewActor("lightnode").Addr.String(), Amount: sdk.NewInt64Coin(world.BondDenom, 1000), VestingMonths: 12})
+	case 8:
+		zz := "factory/" + u2.Addr.String() + "/zz"
+		add(u2, &tftypes.MsgChangeAdmin{Denom: zz, NewAdmin: u1.Addr.String(), Metadata: world.Meta(u2)})
+		add(u1, &evmtypes.MsgDeployUserSmartContractRequest{Metadata: world.Meta(u1), Id: 1, TargetChain: Ref})
+		add(u2, &evmtypes.MsgRemoveSmartContractDeploymentRequest{SmartContractID: 1, ChainReferenceID: Ref, Metadata: world.Meta(u2)})
+		add(u2, &palomatypes.MsgAuthLightNodeClient{Metadata: world.Meta(u2)})
+		// a light node sale reported by the bridge (no sale contract configured: observed, no effect)
+		for _, v := range w.Vals {
+			add(v.Actor, &skywaytypes.MsgLightNodeSaleClaim{Metadata: world.Meta(v.Actor), EventNonce: 2, EthBlockHeight: 11, Orchestrator: v.Addr.String(), ChainReferenceId: Ref, SkywayNonce: 2,
+				ClientAddress: world.NewActor("lightnode2").Addr.String(), Amount: sdkmath.NewInt(77), SmartContractAddress: "0x00000000000000000000000000000000000000ee", CompassId: world.CompassID})
+		}
+	case 100:
+		add(u1, &evmtypes.MsgRemoveUserSmartContractRequest{Metadata: world.Meta(u1), Id: 1})
 	case 120:
 		add(u2, &skywaytypes.MsgSendToRemote{EthDest: "0x00000000000000000000000000000000000000ad", Amount: sdk.NewInt64Coin(s.denom, 11), ChainReferenceId: Ref, Metadata: world.Meta(u2)})
 	}
@@ -152,6 +183,10 @@ func (s *Script) TxsFor(i int, rctx sdk.Context) []Tx {
 		txs = append(txs, s.react(i, rctx)...)
 	}
 	return txs
+}
+
+func ethAddrBytes(v *world.Val) []byte {
+	return ethcommon.HexToAddress(v.EthAddr()).Bytes()
 }
 
 func (s *Script) react(i int, rctx sdk.Context) []Tx {
